@@ -241,10 +241,37 @@ struct Doc {
     shapes: Vec<&'static str>,
 }
 
+/// A document made only of values of the type already seen at the path (3..=6 leaves).
+fn gen_valid_doc(rng: &mut Rng, schema: &Schema) -> Doc {
+    let mut doc = Value::Object(Map::new());
+    let mut classes = Vec::new();
+    let k = 3 + rng.usize(4);
+    for _ in 0..k {
+        let leaf = rng.pick(&schema.leaves);
+        let typed: Vec<&Value> = leaf.pool.iter().filter(|v| !v.is_null()).collect();
+        if typed.is_empty() {
+            continue;
+        }
+        let v = match *rng.pick(&typed) {
+            Value::Bool(b) => Value::Bool(if rng.chance(2, 3) { !*b } else { *b }),
+            Value::Number(n) if !n.is_f64() => json!(n.as_u64().unwrap_or(1).saturating_add(rng.below(3))),
+            Value::String(s) if s.len() < 40 && rng.chance(1, 4) => Value::String(s.to_uppercase()),
+            other => other.clone(),
+        };
+        merge_ref(&mut doc, &nest(&leaf.path, v));
+        classes.push("valid-type");
+    }
+    classes.dedup();
+    Doc { value: doc, classes, shapes: vec!["schema-leaf", "all-valid-types"] }
+}
+
 fn gen_doc(rng: &mut Rng, schema: &Schema) -> Doc {
     let mut doc = Value::Object(Map::new());
     let mut classes = Vec::new();
     let mut shapes = Vec::new();
+    if rng.chance(2, 5) {
+        return gen_valid_doc(rng, schema);
+    }
     match rng.below(40) {
         0 => {
             // not an object at the top
@@ -451,7 +478,7 @@ fn overlay_step(cx: &Ctx, s: &Settings, doc: &Doc, use_toml: bool, out: &mut Out
     let api = if fmt == "toml" { "with_toml" } else { "with_json" };
     let shape = doc.shapes.join("+");
     let vclass = doc.classes.join("+");
-    let wit = |extra: Value| json!({"base": cx.base_name, "format": fmt, "document": short(&doc.value), "detail": extra});
+    let wit = |extra: Value| json!({"op": "overlay", "base": cx.base_name, "format": fmt, "document": short(&doc.value), "detail": extra, "document_full": doc.value, "state_before": to_v(s)});
     // --- model
     let parsed_ok = if fmt == "json" { serde_json::from_str::<Value>(&text).is_ok() } else { toml::from_str::<toml::Value>(&text).is_ok() };
     let mut merged = to_v(s);
@@ -601,7 +628,7 @@ fn norm_eq(v: &Value, got: &Value, norms: &mut Vec<&'static str>) -> bool {
 }
 
 fn path_step(cx: &Ctx, s: &Settings, path: &str, v: &Value, pclass: &'static str, vclass: &'static str, out: &mut Out) -> Option<Settings> {
-    let wit = |extra: Value| json!({"base": cx.base_name, "path": path, "value": short(v), "detail": extra});
+    let wit = |extra: Value| json!({"op": "path", "base": cx.base_name, "path": path, "value": short(v), "detail": extra, "value_full": v, "state_before": to_v(s)});
     out.evals += 1;
     let r1 = match call(|| s.with_value(path, v.clone())) {
         Ok(r) => r,
@@ -635,7 +662,8 @@ fn path_step(cx: &Ctx, s: &Settings, path: &str, v: &Value, pclass: &'static str
                     next = Some(r.clone());
                 }
                 Ok(Ok(g)) => out.violation(format!("with_value|{pclass}|{vclass}|read-back-differs"), format!("with_value('{path}', {}) succeeded but get_value returns {}", short(v), short(&g)), wit(json!({"read": short(&g)}))),
-                Ok(Err(e)) => out.violation(format!("with_value|{pclass}|{vclass}|accepted-but-unreadable"), format!("with_value('{path}', {}) succeeded but get_value('{path}') fails: {e}", short(v)), wit(json!({"get_error": e}))),
+                Ok(Err(e)) => out.violation(
+                    if matches!(pclass, "unknown-key-in-section" | "unknown-top-level" | "degenerate-path") { "with_value|path-not-in-schema|any|accepted-but-unreadable".to_string() } else { format!("with_value|{pclass}|{vclass}|accepted-but-unreadable") }, format!("with_value('{path}', {}) succeeded but get_value('{path}') fails: {e}", short(v)), wit(json!({"get_error": e}))),
             }
             // frame: everything else unchanged (reported, not judged: the statement is silent)
             let mut a = to_v(r);
@@ -778,12 +806,36 @@ fn main() {
     run.set("schema_leaf_paths", json!(schema.leaves.len()));
     run.set("schema_sections", json!(schema.objects.len()));
 
-    if run.replay.is_some() {
-        println!("replay: C25 witnesses carry the document/path and base; re-run the monitor (deterministic per seed) or apply the witness by hand");
-        std::process::exit(2);
+    if let Some(p) = run.replay.clone() {
+        let v: Value = serde_json::from_slice(&std::fs::read(&p).expect("replay file")).expect("json");
+        let w = &v["witness"];
+        let Ok(s) = Settings::new().with_json(&w["state_before"].to_string()) else {
+            println!("replay: cannot rebuild the state before the step");
+            std::process::exit(2);
+        };
+        let cx = Ctx { schema: &schema, base_name: "replay" };
+        let mut out = Out::default();
+        match w["op"].as_str() {
+            Some("overlay") => {
+                let d = Doc { value: w["document_full"].clone(), classes: vec!["replay"], shapes: vec!["replay"] };
+                overlay_step(&cx, &s, &d, w["format"] == "toml", &mut out);
+            }
+            Some("path") => {
+                path_step(&cx, &s, w["path"].as_str().unwrap_or(""), &w["value_full"], "replay", "replay", &mut out);
+            }
+            _ => {
+                println!("replay: witness has no replayable step");
+                std::process::exit(2);
+            }
+        }
+        for (sig, (what, _, _, _)) in &out.violations {
+            println!("replay: {sig} :: {what}");
+        }
+        println!("replay: {} violation(s)", out.violations.len());
+        std::process::exit(if out.violations.is_empty() { 0 } else { 1 });
     }
 
-    let n_hist = run.tier.pick(24_000usize, 600_000);
+    let n_hist = run.tier.pick(40_000usize, 800_000);
     let chunk = 200usize;
     let seed = run.seed;
     let schema_ref = &schema;
@@ -796,6 +848,12 @@ fn main() {
             let use_rich = rich_ref.is_some() && rng.chance(1, 6);
             let cx = Ctx { schema: schema_ref, base_name: if use_rich { "fixture-settings" } else { "defaults" } };
             let mut s = if use_rich { rich_ref.clone().unwrap() } else { Settings::new() };
+            // primer: move the state away from the defaults in several sections, so that a lost
+            // sibling (replace instead of merge) is visible in later steps
+            let d = gen_valid_doc(&mut rng, schema_ref);
+            if let Some(n) = overlay_step(&cx, &s, &d, false, &mut out) {
+                s = n;
+            }
             let steps = 1 + rng.usize(5);
             for _ in 0..steps {
                 let next = match rng.below(10) {
